@@ -28,3 +28,21 @@ Theorem safe_bit_access : forall s off size,
   end.
 Proof. exact offset_block_reads_container. Qed.
 Print Assumptions safe_bit_access.
+
+(* ---------- no integer overflow in the generated arithmetic (links C05's gate to C04) ---------- *)
+Require Import EmbossV.Bounds.SafeArith EmbossV.Bounds.SafeArithProofs.
+
+(* For every expression the 64-bit gate accepts and every environment whose integer leaves lie in
+   their physical ranges, evaluating the expression the way the generated C++ does — constants as
+   literals, every other operation in the IntermediateT picked by _cpp_integer_type_for_range, with
+   an out-of-type operand or result counted as undefined behaviour — never hits that case and
+   yields the value of the unbounded semantics. *)
+Theorem safe_arith : forall G r e v,
+  env_in G r -> gate G e = true -> eval G r e = Some v -> ceval G r e = Some v.
+Proof. exact SafeArithProofs.safe_arith. Qed.
+Print Assumptions safe_arith.
+
+(* without the gate the statement is false: Int:64 - UInt:64 fits no C++ type *)
+Theorem safe_arith_refuted_without_gate :
+  exists G r e v, env_in G r /\ gate G e = false /\ eval G r e = Some v /\ ceval G r e = None.
+Proof. exact SafeArithProofs.safe_arith_refuted_without_gate. Qed.
